@@ -268,6 +268,16 @@ def check(model: Model, run: Run) -> None:
     _r6_lines(model, run)
     _r6_one_per_turn(model, run)
 
+    # ------------------------------------------------------------------ R7
+    run.rule(
+        'C14.R7',
+        'the scheduler never loses an entry: whatever ASYNC takes out of its queue with popleft() is resumed / awaited or put back '
+        'with appendleft() on every path to the end of the turn - a command callback that is popped and neither run nor put back is '
+        'a command that is never executed and never answered',
+        floor=3,
+    )
+    _r7_scheduler(model, run)
+
 
 def _witness(model: Model, cnt: Counter, fi: FuncInfo) -> list[str]:
     out = []
@@ -539,3 +549,120 @@ def _r6_one_per_turn(model: Model, run: Run) -> None:
                 break
             p = pm.get(id(p))
     run.check(bool(ys) and not looped and not any(isinstance(y, ast.YieldFrom) for y in ys), fi.qualname, 'one buffered command per call (%d yield, %d inside a loop)' % (len(ys), len(looped)), fi.loc(looped[0]) if looped else fi.loc(), 'the whole backlog is handed over in one call: commands answered at once overtake the scheduled answers of the commands before them (replies out of order), and a `reset` in the burst drops commands that were already accepted')
+
+
+# ---------------------------------------------------------------------------------------------- R7
+def _r7_scheduler(model: Model, run: Run) -> None:
+    ASYNC = 'exabgp.reactor.asynchronous.ASYNC'
+    funcs = [f for q, f in model.funcs.items() if q.startswith(ASYNC + '.')]
+    n = 0
+    for f in funcs:
+        pops = []
+        for st in walk_no_nested(f.node):
+            if isinstance(st, ast.Assign) and isinstance(st.value, ast.Call) and isinstance(st.value.func, ast.Attribute) and st.value.func.attr in ('popleft', 'pop') and (dotted(st.value.func.value) or '').startswith('self.'):
+                names = [x.id for x in ast.walk(st.targets[0]) if isinstance(x, ast.Name)]
+                if names:
+                    pops.append((st, names[-1], dotted(st.value.func.value), names[0] if len(names) > 1 else None))
+        if not pops:
+            continue
+        run.analysed(f)
+        cfg = CFG(f.node)
+        for st, var, queue, uidvar in pops:
+            n += 1
+            targets: set[int] = set()
+            for node in cfg.nodes:
+                a = node.ast
+                if a is None or node.kind in ('entry', 'exit'):
+                    continue
+                roots = [a.test] if node.kind == 'test' and hasattr(a, 'test') else ([a] if node.kind not in ('test', 'dispatch') else [])
+                for r in roots:
+                    for x in ast.walk(r):
+                        used = False
+                        if isinstance(x, ast.Await) and any(isinstance(y, ast.Name) and y.id == var for y in ast.walk(x.value)):
+                            used = True
+                        if isinstance(x, ast.Call) and isinstance(x.func, ast.Name) and x.func.id == 'next' and x.args and isinstance(x.args[0], ast.Name) and x.args[0].id == var:
+                            used = True
+                        if isinstance(x, ast.Call) and isinstance(x.func, ast.Attribute) and x.func.attr in ('appendleft', 'append') and dotted(x.func.value) == queue and any(isinstance(y, ast.Name) and y.id == var for y in ast.walk(x)):
+                            used = True
+                        # the error handler of the reactor answers the command of this entry with `error`
+                        if uidvar and isinstance(x, ast.Call) and isinstance(x.func, ast.Attribute) and 'error' in x.func.attr and any(isinstance(a, ast.Name) and a.id == uidvar for a in x.args):
+                            used = True
+                        if used and x is not st.value:
+                            targets.add(node.id)
+            srcs = [x for x in cfg.nodes_of(st)]
+            ok, path = True, []
+            for s_ in srcs:
+                ok, path = _feasible_escape(cfg, s_.id, targets)
+                if not ok:
+                    break
+            inst = '%s: entry popped at line %d' % (short(f.qualname), st.lineno)
+            if ok:
+                run.ok(inst, 'run or put back on every path')
+            else:
+                run.violation(
+                    f.qualname,
+                    'an entry taken from %s can reach the end of the turn without being run or put back' % queue,
+                    f.loc(st),
+                    'path %s: `%s` is popped and the function returns without resuming it, awaiting it or re-queueing it - when a generator '
+                    'ahead of an API command finishes on the last step of the turn, the command callback popped next is dropped: the command '
+                    'is neither executed nor answered' % (' -> '.join(cfg.describe_path(path)[-6:]), var),
+                )
+    if n < 3:
+        run.cannot('only %d popleft() sites found in ASYNC' % n)
+
+
+def _feasible_escape(cfg: CFG, src: int, targets: set[int]) -> tuple[bool, list[int]]:
+    """(True, []) when every FEASIBLE path from src to the exit passes a target.  Paths carry the truth values of the `if`
+    tests they took: one that took `A or B` as true and later both A and B as false (or any test both ways without an
+    assignment in between to a name it reads) is not a path of the program."""
+    from ..flow import conjuncts
+
+    def consistent(facts: frozenset) -> bool:
+        d: dict[str, bool] = {}
+        ors = []
+        for txt, pol, parts in facts:
+            if parts:
+                ors.append(parts)
+                continue
+            if d.setdefault(txt, pol) != pol:
+                return False
+        for parts in ors:
+            if all(d.get(p_) is False for p_ in parts):
+                return False
+        return True
+
+    best: list[int] = []
+    stack = [(src, frozenset(), (src,))]
+    seen: set[tuple[int, frozenset]] = set()
+    steps = 0
+    while stack and steps < 20000:
+        steps += 1
+        i, facts, path = stack.pop()
+        if (i, facts) in seen:
+            continue
+        seen.add((i, facts))
+        if i == cfg.exit.id and i != src:
+            return False, list(path)
+        node = cfg.nodes[i]
+        # an assignment invalidates the facts that read the assigned names
+        if node.kind not in ('test', 'dispatch') and isinstance(node.ast, (ast.Assign, ast.AugAssign, ast.AnnAssign)):
+            written = {x.id for x in ast.walk(node.ast) if isinstance(x, ast.Name) and isinstance(x.ctx, ast.Store)}
+            facts = frozenset(f for f in facts if not any(w in f[0] for w in written))
+        for j, lab in node.succ:
+            if j in targets:
+                continue
+            if lab == 'exc' and (node.kind == 'test' or i == src):
+                continue  # type predicates (inspect.is*, emptiness) do not raise; a popleft() that raises popped nothing
+            nf = facts
+            if node.kind == 'test' and isinstance(node.ast, ast.If) and lab in ('true', 'false'):
+                add = set()
+                for t, pol in conjuncts(node.ast.test, lab == 'true'):
+                    if isinstance(t, ast.BoolOp) and isinstance(t.op, ast.Or) and pol:
+                        add.add((norm(t), True, tuple(norm(v) for v in t.values)))
+                    else:
+                        add.add((norm(t), pol, ()))
+                nf = facts | frozenset(add)
+                if not consistent(nf):
+                    continue
+            stack.append((j, nf, path + (j,)))
+    return True, best
